@@ -359,6 +359,8 @@ class World:
         self.root = root
         self.files = {}          # relpath -> {"fmt", "opts", "doc", "state"}
         self.kw_objects = {}     # canonical literal -> built keyword arguments (reused objects)
+        self.hold_failed_writer = False
+        self.held = []
         self.extra_pool = []     # literals used so far in this run
         self.violations = []
         self.faults = {}
@@ -369,7 +371,7 @@ class World:
                        "alias_route_checked": 0, "reordered_restriction": 0,
                        "typemap_checked": 0, "non_utf8_encoding": 0, "fault_armed_not_fired": 0,
                        "geojson_escaped_member_name": 0, "geojson_null_geometry": 0,
-                       "read_fault_fired": 0, "failed_overwrite_of_acked_file": 0, "failing_cast_read": 0, "reused_keyword_object": 0}
+                       "read_fault_fired": 0, "failed_overwrite_of_acked_file": 0, "failing_cast_read": 0, "reused_keyword_object": 0, "geojson_edit_then_rewrite": 0}
         self.opcount = {}
         self.log = []
         self.abstract = []
@@ -513,8 +515,15 @@ class World:
             # Release the failed writer *now* (a user's except block does the same): a
             # half-closed zipfile/gzip object kept alive by the traceback would flush its
             # buffer into the same inode at some later, arbitrary garbage collection.
-            err = err.with_traceback(None)
-            gc.collect()
+            if self.hold_failed_writer and FORMATS[fmt][1] not in (".npz", ".parquet"):
+                # the caller retries inside its except block: the failed call's exception (and
+                # whatever it keeps alive) is released only after the next operation.  Not for
+                # NPZ/Parquet, whose half-closed native writers are NumPy's / Arrow's business.
+                self.held.append(err)
+                err = err.with_traceback(err.__traceback__)
+            else:
+                err = err.with_traceback(None)
+                gc.collect()
         outcome = "ack" if err is None else "fail:" + type(err).__name__
         self.abstract.append(("write", fmt, os.path.splitext(rel)[1], self.optclass(opts),
                               (fault or {}).get("kind"), "ack" if err is None else "fail"))
@@ -1061,6 +1070,8 @@ class World:
         if why:
             self.viol("C18", "written", f"C18.written-file-differs|{tag}",
                       f"file written by GeoJSON.write differs from the collection: {why}")
+        if op.get("edit_then_rewrite") is not None and doc["features"]:
+            self.geo_edit_and_rewrite(op, first, doc, enc, wopts)
         # re-read equals first read incl. metadata
         try:
             second = di.GeoJSON.read(path, encoding=enc)
@@ -1075,15 +1086,57 @@ class World:
             self.viol("C18", "reread", f"C18.reread-differs|{tag}",
                       f"re-read {describe(second)!r} != first read {describe(first)!r}")
 
+    def geo_edit_and_rewrite(self, op, first, doc, enc, wopts):
+        """History: the caller edits a geometry object in place and writes the frame again."""
+        i = op["edit_then_rewrite"] % len(doc["features"])
+        g = first["geometry"][i]
+        new_coords = [[9.5, -9.5], [8, 8]]
+        if g is None:
+            return
+        if "coordinates" in g:
+            g["coordinates"] = copy.deepcopy(new_coords)
+            expected = dict(doc["features"][i]["geometry"], coordinates=new_coords)
+        else:
+            g["geometries"] = []
+            expected = dict(doc["features"][i]["geometry"], geometries=[])
+        path2 = self.path(os.path.join("rewrite", os.path.basename(op["path"]).split(".")[0] + ".geojson"))
+        try:
+            first.write(path2, **wopts)
+            with open(path2, encoding=enc) as f:
+                loaded = json.load(f)
+            got = loaded["features"][i]["geometry"]
+        except Exception as e:
+            self.viol("C18", "rewrite", f"C18.rewrite-raise|{type(e).__name__}",
+                      f"writing again after an in-place geometry edit failed: {e!r}")
+            return
+        self.probes["geojson_edit_then_rewrite"] += 1
+        if not same_value(got, expected):
+            self.viol("C18", "rewrite", "C18.written-file-differs|after-in-place-geometry-edit",
+                      f"geometry {i} was edited in place to {expected!r} after an earlier write, but the "
+                      f"file written afterwards holds {got!r}")
+        # undo, so that the remaining checks of this step still see the model's document
+        if "coordinates" in g:
+            g["coordinates"] = copy.deepcopy(doc["features"][i]["geometry"]["coordinates"])
+        else:
+            g["geometries"] = copy.deepcopy(doc["features"][i]["geometry"]["geometries"])
+
     # -- dispatcher -----------------------------------------------------------
 
     def execute(self, op):
         self.step += 1
         kind = op["op"]
         self.opcount[kind] = self.opcount.get(kind, 0) + 1
+        release = list(self.held)
         out = io.StringIO()
         with contextlib.redirect_stdout(out):
             getattr(self, "op_" + kind)(op)
+        if release:
+            # now the earlier failed call's exception goes out of scope
+            for e in release:
+                e.__traceback__ = None
+                self.held.remove(e)
+            del release, e
+            gc.collect()
 
 
 # ---------------------------------------------------------------------------
@@ -1110,12 +1163,15 @@ class Gen:
         self.fmts = r.sample(fmts, min(k, len(fmts)))
         self.suffixes = r.sample(SUFFIXES, r.choice([1, 2, 4]))
         self.nrows_max = r.choice([1, 2, 4, 8, 12])
+        self.hold_failed_writer = r.random() < 0.5
+        world.hold_failed_writer = self.hold_failed_writer
         self.counter = 0
         self.pending = []
         self.reuse_dir = None
 
     def config(self):
         return {"nops": self.nops, "fault_rate": self.fault_rate, "fault_kinds": self.fault_kinds,
+                "hold_failed_writer": self.hold_failed_writer,
                 "fmts": self.fmts, "suffixes": self.suffixes, "nrows_max": self.nrows_max}
 
     def strings(self, enc):
@@ -1198,6 +1254,8 @@ class Gen:
                         continue
                     d[k] = r.choice([None, True, 1, 2.5, "x", r.choice(self.strings(enc)), 0, "", 1.0, False,
                                      0.0])
+                    if k == "s" and r.random() < 0.15:
+                        d[k] = {"id": 71, "q": [1, {"k": None}]}      # nested object reusing key names
             if fmt != "lod_csv":
                 d["id"] = i
             items.append(d)
@@ -1320,6 +1378,12 @@ class Gen:
         f = self.fault()
         if f:
             op["fault"] = f
+            if r.random() < 0.5:
+                # macro: the caller retries the same write (another document) straight away
+                doc2 = self.frame_doc(fmt, enc) if FORMATS[fmt][0] == "frame" else self.lod_doc(fmt, enc)
+                self.pending.append({"op": "write", "fmt": fmt, "path": path, "opts": copy.deepcopy(opts),
+                                     "doc": doc2})
+                self.pending.append({"op": "read", "path": path})
         return op
 
     def g_geo(self):
@@ -1331,6 +1395,8 @@ class Gen:
             opts["indent"] = r.choice([None, 0, 2, 4])
         op = {"op": "geo", "path": self.new_path("geojson"), "opts": opts, "doc": doc,
               "src_indent": r.choice([None, 2])}
+        if r.random() < 0.3:
+            op["edit_then_rewrite"] = r.randrange(8)
         f = self.fault()
         if f:
             op["fault"] = f
@@ -1517,6 +1583,7 @@ def _run(prop, rng=None, trace=None, tier="quick"):
                 ops_done.append(rec)
         else:
             config = trace["config"]
+            world.hold_failed_writer = bool(config.get("hold_failed_writer"))
             for op in trace["ops"]:
                 rec = copy.deepcopy(op)
                 world.execute(copy.deepcopy(op))
